@@ -564,7 +564,8 @@ class SFA(_PanelToPanelTransformer):
             repeat_words = 0
 
             for window, word in enumerate(self.words[i]):
-                new_word = self.shorten_word(word, self.word_length - word_len)
+                # words cannot be longer than the window allows (see __init__)
+                new_word = self.shorten_word(word, max(0, self.word_length - word_len))
 
                 repeat_word = (
                     self._add_to_pyramid(
